@@ -41,6 +41,19 @@ func main() {
 			return
 		}
 	}
+	// messages sharing a UUID / without one; first publishes racing on fresh topics
+	for i := 0; i < nbig; i++ {
+		if !emit(gc.DupUUIDs(rng.Next())) {
+			return
+		}
+	}
+	nfresh := 120
+	if a.Thorough() {
+		nfresh = 600
+	}
+	if !emit(gc.FreshTopics(rng.Next(), nfresh)) {
+		return
+	}
 	// forced overlaps: hold a Publish (or a Subscribe's replay) at each point of its critical path while the other operation runs
 	for _, hook := range []string{"gochannel.publish.after_closed_check", "gochannel.publish.locked", "gochannel.publish.persisted", "gochannel.publish.sent",
 		"gochannel.subscribe.after_closed_check", "gochannel.subscribe.locked", "gochannel.subscribe.replay", "gochannel.subscribe.replay_msg", "gochannel.subscribe.registered", "gochannel.dispatch.next"} {
